@@ -100,7 +100,11 @@ def tosym(s, env):
     return None
 
 
-def run(fx, R, tier):
+QUANT = {'cells': 1e7, 'coord': 1e3, 'tol': 0.5e-3, 'what': 'half of the smallest resolution (5e-4)'}
+
+
+def run(fx, R, tier, cells=1e7, coord=1e3, tol=0.5e-3, what='half of the smallest resolution (5e-4)'):
+    QUANT.update({'cells': cells, 'coord': coord, 'tol': tol, 'what': what})
     classes = sorted(q for q in fx.records if q.startswith(NS + 'GridIndexMapping<'))
     if len(classes) != 4:
         R.undecided('X1', 'GridIndexMapping', '%d instantiations (4 expected)' % len(classes))
@@ -242,11 +246,11 @@ def check_class(fx, R, cq):
             table_ok = 'skip'
     if acc_violation is not None:
         eps = {'float': 5.96e-8, 'double': 1.11e-16}.get(scalar, 1e-16)
-        drift = 1e7 * eps * 1e3
-        if drift > 0.5e-3:
-            R.violated('X2', 'GridIndexMapping:centre-table:accumulated', 'the centre table is filled from a value carried across iterations (%s): for %s and the up to 1e7 cells of the quantifier the rounding '
-                       'error grows like n*eps*|coordinate| (about %.3g here) while half of the smallest resolution is 5e-4, so centres are no longer spaced by the resolution, no longer map back to their own '
-                       'index (the index map uses the closed form) and the last cell no longer covers the bound [%s]' % (acc_violation, scalar, drift, cname), loc, 'E-STATE')
+        drift = QUANT['cells'] * eps * QUANT['coord']
+        if drift > QUANT['tol']:
+            R.violated('X2', 'GridIndexMapping:centre-table:accumulated', ('the centre table is filled from a value carried across iterations (%s): for %s and the up to %g cells of the quantifier the rounding '
+                       'error grows like n*eps*|coordinate| (about %.3g here) while the tolerance of this property is %s, so centres are no longer spaced by the resolution, no longer map back to their own '
+                       'index (the index map uses the closed form) and the last cell no longer covers the bound [%s]') % (acc_violation, scalar, QUANT['cells'], drift, QUANT['what'], cname), loc, 'E-STATE')
         else:
             R.holds('X2', cname + ':centre-table:accumulated', 'accumulated in %s: drift bound %.3g below half the smallest resolution' % (scalar, drift), loc, 'E-STATE')
     elif table_ok is True:
